@@ -35,8 +35,10 @@ def main(argv=None):
     ap.add_argument("--seed", type=int, default=0)
     ap.add_argument("--shard", default="")  # name=v1,v2;name2=...
     ap.add_argument("--out")
+    ap.add_argument("--panic-ok", action="store_true", help="panics end the path but are not findings")
     ap.add_argument("--param", action="append", default=[])
     ap.add_argument("--witnesses", type=int, default=24)
+    ap.add_argument("--path-steps", type=int, default=1_500_000)
     a = ap.parse_args(argv)
 
     t0 = time.time()
@@ -45,6 +47,7 @@ def main(argv=None):
     m = Machine(prog, Summaries(), model=model, seed=a.seed, step_budget=a.steps, path_budget=a.paths)
     m.known_classes = set(x for x in a.known.split(",") if x)
     m.deadline = t0 + a.budget_s
+    m.path_step_limit = a.path_steps
     import os
     m.trace = bool(os.environ.get("MIRSYM_TRACE"))
     if a.shard:
@@ -111,7 +114,9 @@ def main(argv=None):
                 else:
                     emits.append("%s=#%d" % (lab, v))
         take_witness(mach, st, e)
-        if e.kind == "panic":
+        if e.kind == "panic" and a.panic_ok:
+            panics[e.msg] = panics.get(e.msg, 0) + 1
+        elif e.kind == "panic":
             label = "panic"
             log = mach.check_log.setdefault(label, {"evals": 0, "trivially_true": 0, "queries": 0, "violating_paths": 0})
             log["evals"] += 1
@@ -120,6 +125,13 @@ def main(argv=None):
             for f in mach.findings[before:]:
                 f["panic_msg"] = e.msg
             panics[e.msg] = panics.get(e.msg, 0) + 1
+        elif e.kind == "hang":
+            log = mach.check_log.setdefault("hang", {"evals": 0, "trivially_true": 0, "queries": 0, "violating_paths": 0})
+            log["evals"] += 1
+            before = len(mach.findings)
+            mach.violation_queries(st, "hang", True, log)
+            for f in mach.findings[before:]:
+                f["panic_msg"] = e.msg
         elif e.kind == "unreachable":
             raise Unsupported("MIR unreachable reached: " + e.msg)
         if len(samples) < 5:
